@@ -108,6 +108,9 @@ def build_alphabet():
         E('IDLE-DONE', b'IDLE', 'select', [b'DONE\r\n'], idle=True),
         E('IDLE-garbage', b'IDLE', 'select', [b'WHAT\r\n'], idle=True,
           invalid=True),
+        # --- environment: another session deletes the mailbox this
+        # connection has selected (enabled only then)
+        E('ENV:selected-mailbox-deleted', None, 'env'),
         # --- unknown / unparseable
         E('BOGUS', b'BOGUSCMD', 'unknown', invalid=True),
         E('BOGUS-args', b'XYZZY 1 2 3', 'unknown', invalid=True),
@@ -133,13 +136,26 @@ class FSM:
         # consecutive commands answered BAD; pymap hangs up (BYE) once its
         # --bad-command-limit (5 in these worlds) is reached
         self.bad_run = 0
+        # the mailbox of the current selection was deleted by another session
+        self.orphan = False
 
     def key(self):
         return (self.state, self.user, self.mailbox, self.readonly,
                 self.tls_done, self.login_disabled,
-                tuple(sorted(self.existing)), self.bad_run)
+                tuple(sorted(self.existing)), self.bad_run, self.orphan)
 
     def predict(self, ev):
+        conds, nexts, unchanged = self._predict(ev)
+        if self.state == 'S' and self.orphan \
+                and not ev.get('close') and not ev.get('logout'):
+            # the selected mailbox was deleted by somebody else: the server
+            # may notice at any command and deselect or hang up (BYE)
+            extra = [n for n in (('A', None, None), ('X', None, None))
+                     if n not in nexts]
+            return conds | {'NO'}, nexts + extra, False
+        return conds, nexts, unchanged
+
+    def _predict(self, ev):
         """-> (admissible tagged conditions, list of admissible next control
         states as (state, mailbox, readonly), must_be_unchanged)."""
         st = self.state
@@ -190,6 +206,16 @@ class FSM:
                     nxt = [cur, ('A', None, None), ('X', None, None)]
                 return ({'OK', 'NO'}, nxt, False)
             return ({'OK', 'NO'}, [cur], False)
+        if cls == 'select' and st == 'S' and self.orphan:
+            # the selected mailbox is gone: CLOSE still succeeds; anything
+            # else may be refused, may deselect or may end in BYE
+            if ev.get('close'):
+                return ({'OK'}, [('A', None, None)], False)
+            if ev.get('idle'):
+                return ({'OK', 'NO', 'BAD'},
+                        [cur, ('A', None, None), ('X', None, None)], False)
+            return ({'OK', 'NO', 'BAD'},
+                    [cur, ('A', None, None), ('X', None, None)], False)
         if cls == 'select':
             if st != 'S':
                 if ev.get('idle') and st == 'A':
@@ -231,6 +257,9 @@ class FSM:
             elif ns[0] == 'rename':
                 self.existing.discard(ns[1])
                 self.existing.add(ns[2])
+        if (st, mbx) != (self.state, self.mailbox) or \
+                ('select' in ev and cond == 'OK'):
+            self.orphan = False
         self.state, self.mailbox, self.readonly = st, mbx, ro
 
 
@@ -292,7 +321,11 @@ class Model:
         s = ctx.session(0)
         if s.done or s.conn.closed:
             return []
-        return range(len(self._alpha))
+        fsm = ctx.extra['fsm']
+        return [i for i, e in enumerate(self._alpha)
+                if e['cls'] != 'env' or (
+                    fsm.state == 'S' and fsm.mailbox in fsm.existing
+                    and fsm.mailbox != 'INBOX')]
 
     def terminal(self, ctx):
         s = ctx.session(0)
@@ -302,6 +335,17 @@ class Model:
         ev = self._alpha[i]
         fsm: FSM = ctx.extra['fsm']
         s = ctx.session(0)
+        if ev['cls'] == 'env':
+            h = ctx.extra.get('helper')
+            if h is None:
+                h = ctx.extra['helper'] = ctx.connect(peer='127.0.0.1')
+                assert ctx.do(h, b'LOGIN demouser demopass').cond == 'OK'
+            st = ctx.do(h, b'DELETE ' + fsm.mailbox.encode())
+            if st.cond == 'OK':
+                fsm.existing.discard(fsm.mailbox)
+                fsm.orphan = True
+            ctx.pull_all()
+            return []
         before = effect_key(ctx)
         conds, nexts, unchanged = fsm.predict(ev)
         st = ctx.do(0, ev['line'], ev['conts'])
@@ -400,6 +444,9 @@ class Model:
         if authed != (fsm.state in ('A', 'S')):
             out.append(Violation('probe-auth', site,
                        f'LIST answered {p1.cond} in model state {fsm.state}'))
+        if fsm.orphan:
+            # what message commands do on an orphaned selection is open
+            return out
         p2 = ctx.do(0, b'CHECK')
         selected = p2.cond == 'OK'
         if selected != (fsm.state == 'S'):
@@ -453,7 +500,8 @@ E1_QUICK = ['IDLE-DONE', 'IDLE-garbage', 'SELECT-INBOX', 'EXAMINE-INBOX',
 def _pipelinable(ev) -> bool:
     # a client must wait for '+' before a synchronising literal / SASL
     # response; LOGOUT ends the connection (nothing may follow)
-    return (not ev['conts'] or ev.get('idle')) and not ev.get('logout')
+    return (not ev['conts'] or ev.get('idle')) and not ev.get('logout') \
+        and ev['cls'] != 'env'
 
 
 def _send_until(ctx, si, data, tags, max_handles=20000):
@@ -522,7 +570,8 @@ def _pair_task(args):
     for e2 in range(len(m._alpha)):
         if not _pipelinable(m._alpha[e1]):
             continue
-        if not (_pipelinable(m._alpha[e2]) or m._alpha[e2].get('logout')):
+        if m._alpha[e2]['cls'] == 'env' or not (
+                _pipelinable(m._alpha[e2]) or m._alpha[e2].get('logout')):
             continue
         base = _pair_run(m, history, e1, e2, 'quiescent')
         if base is None:
